@@ -13,7 +13,7 @@ for bfn in ('oldqueue.log', 'r2queue.log'):
             mo = re.match(r'seed=(C\d\d-(?:r2)?m\d) check=(\S+) rc=(\d+)', line)
             if mo:
                 baseline.setdefault(mo.group(1), []).append({'check': mo.group(2), 'exit': int(mo.group(3)), 'detected': mo.group(3) == '1'})
-for d in sorted(glob.glob('/verif/seeded/*-m*')):
+for d in sorted(glob.glob('/verif/seeded/C*-*m[0-9]')):
     name = os.path.basename(d); pid, m = name.split('-')
     readme = open(os.path.join(d, 'README.md')).read() if os.path.exists(os.path.join(d, 'README.md')) else ''
     title = readme.split('\n', 1)[0].lstrip('# ').strip()
